@@ -53,19 +53,16 @@ func applyFilter(jqFilter string, fl filter.Filter, filterFn func(obj *unstructu
 		}
 		res.Metadata.Checksum = utils_checksum.CalculateChecksum(string(data))
 	} else {
-		var err error
-		var filtered map[string]any
-		filtered, err = fl.ApplyFilter(jqFilter, obj.UnstructuredContent())
+		// The filter result may be of any JSON type (object, array, scalar, null).
+		// It is kept as the JSON text jq prints: ObjectAndFilterResult.Map()
+		// parses it back when a binding context is rendered.
+		filtered, err := fl.ApplyFilterJSON(jqFilter, obj.UnstructuredContent())
 		if err != nil {
 			return nil, fmt.Errorf("jqFilter: %v", err)
 		}
 
-		bytes, err := json.Marshal(filtered)
-		if err != nil {
-			return nil, fmt.Errorf("jqFilter: %v", err)
-		}
-		res.FilterResult = filtered
-		res.Metadata.Checksum = utils_checksum.CalculateChecksum(string(bytes))
+		res.FilterResult = string(filtered)
+		res.Metadata.Checksum = utils_checksum.CalculateChecksum(string(filtered))
 	}
 
 	return res, nil
